@@ -241,7 +241,16 @@ func c10(run *core.Run, replay string) {
 		"non-trivial = reference round-trips and the stream has a multi-byte payload; distinct = (config, shape, size, seed | corpus file)")
 	run.Assume("only bitstream format 6 as written by the pinned snapshot; pairs on which the reference itself fails are skipped and counted")
 	check := func(c *fmtCase) {
-		k, d, ok := runFmtCase(c)
+		if core.Hangs() >= 3 {
+			return
+		}
+		g, returned := guarded(func() kd { k, d, ok := runFmtCase(c); return kd{k, d, ok} })
+		if !returned {
+			run.Eval(1)
+			run.Violate("C10 hang", fmt.Sprintf("%+v: decoding never returned (60 s, then 180 s)", *c), c)
+			return
+		}
+		k, d, ok := g.k, g.d, g.ok
 		if !ok {
 			run.Count("reference_failed_pair_skipped", 1)
 			return
